@@ -630,6 +630,8 @@ def check_C08(tier):
         # e.g. the monitor loop was rewritten around an interface the stand-in does not provide: no verdict
         # from the in-process replays; real spawned processes only (more of them)
         standin, ok, batch, wide = False, True, PA.Batch(), PA.Batch()
+        print("NOTE: in-process stand-in not applicable (%s); real spawned runs only" % str(exc)[:160], flush=True)
+        rep.cov["standin_applied"] = False
         rep.assumptions += ["the in-process stand-in for multiprocessing does not apply to this tree (%s): schedule "
                             "replays skipped, real spawned runs only" % str(exc)[:200]]
     # code -> spec: real spawned processes; items given as a generator (documented usage)
@@ -695,8 +697,17 @@ def check_C19(tier):
                     break
     except fakemp.StandInUnsupported as exc:
         standin, ok, batch = False, True, PA.Batch()
+        print("NOTE: in-process stand-in not applicable (%s); real spawned runs only" % str(exc)[:160], flush=True)
+        rep.cov["standin_applied"] = False
         rep.assumptions += ["the in-process stand-in for multiprocessing does not apply to this tree (%s): fault "
                             "replays skipped, real spawned runs only" % str(exc)[:200]]
+    # specification growth: the log process and its queue (refinement of ParallelAdd, no message lost before a
+    # return, killed on a worker's death, left running exactly when a merge process dies)
+    for args in ([(2, 2, 1, None, 0), (2, 3, 0, (1, 1), 0), (2, 2, 0, None, 1)] if quick else
+                 [(2, 2, 1, None, 0), (2, 3, 0, (1, 1), 0), (2, 2, 0, None, 1), (3, 3, 2, None, 0), (3, 4, 1, (2, 1), 0), (3, 3, 0, None, 2)]):
+        louts = PA.logchannel_check(rep, *args[:4], merger_dies=args[4], tag="c19lc%d%d%d" % (args[0], args[1], args[4]))
+        rep.sample({"logchannel": {"N": args[0], "K": args[1], "faults": args[2], "die": args[3], "merger_dies": args[4]},
+                    "terminal (outcome, log process)": louts}, limit=12)
     if ok:
         runs = [PA.real_run(2, 5, 0, 3, rng, {"hll"})]                    # a worker calls os._exit(1) on item 3
         if not standin:
